@@ -57,6 +57,21 @@ pub fn reader_cases(items: &[Item]) -> Vec<RCase> {
             complete_at,
         });
     }
+    // the multi-threaded LZMA2 reader over the same raw LZMA2 streams (its coordinator reads the source on the caller's
+    // thread; real worker threads, the result must not depend on their timing)
+    for it in items {
+        if matches!(it.cont, Container::Lzma2 | Container::Lzma2Chunk(_)) {
+            let dict = it.opts.dict;
+            v.push(RCase {
+                name: format!("{}-mt2", it.name),
+                family: "lzma2-mt",
+                bytes: it.bytes.clone(),
+                expect: it.input.clone(),
+                open: Box::new(move |src| Ok(Box::new(lzma_rust2::LZMA2ReaderMT::new(src, dict, None, 2)) as Box<dyn Read>)),
+                complete_at: vec![],
+            });
+        }
+    }
     // standalone filter readers
     let code = gen::build(&[Seg::X(300)], 1);
     for b in ALL_BCJ {
